@@ -339,7 +339,11 @@ Definition step (cfg : config) (s : state) (o : op) : state * resp :=
                  tp <| t_msgcount ::= N.add (N.of_nat (length ids)) |> <| t_bytes ::= N.add bytes |>) in
       (pump_topic cfg now s t, ROk)
   | OConnect k timeout =>
-      (s <| s_clients ::= fun l => l ++ [new_client k timeout] |>, ROk)
+      (* connection ids are never reused (nsqd.clientIDSequence) *)
+      match find_client s k with
+      | Some _ => (s, RInvalid)
+      | None => (s <| s_clients ::= fun l => l ++ [new_client k timeout] |>, ROk)
+      end
   | OSub k t c teph ceph now =>
       match find_client s k with
       | Some kl =>
